@@ -41,3 +41,23 @@ def rateformat (const : Rat) (oldUnits newUnits : List String) (nReactants : Nat
 def concentrationformat (v : Rat) (unit out : String) : Except Err Rat := convert v unit out
 
 end Dsd.Units
+
+namespace Dsd.Units
+
+/-- the argument forms accepted by the `rate_constant` setter -/
+inductive RateArg
+  | number (v : Rat)
+  | tuple1 (v : Rat)
+  | pair (v : Rat) (units : Option String)
+deriving Repr
+
+/-- `(constant, units) = tup if len(tup) == 2 else (tup[0], None)`; a bare number is stored with `None` -/
+def setRate : RateArg → Rat × Option String
+  | .number v => (v, none)
+  | .tuple1 v => (v, none)
+  | .pair v u => (v, u)
+
+/-- the getter returns `(flint(const), units)`; `flint` preserves the numeric value -/
+def getRate (st : Rat × Option String) : Rat × Option String := st
+
+end Dsd.Units
